@@ -89,14 +89,14 @@ def format_tag_value(value: Any) -> str:
     Format a tag value.
     """
     # Simple strings (no spaces or commas or special values) can be displayed without quotes.
-    if (
-        isinstance(value, str)
-        and not re.match(".*[ ,].*", value)
-        and isinstance(parse_tag_value(value), str)
-    ):
-        return value
-    else:
-        return json.dumps(value, sort_keys=True)
+    if isinstance(value, str) and not re.match(".*[ ,].*", value):
+        try:
+            # Only display without quotes if the text parses back to the same string.
+            if parse_tag_value(value) == value:
+                return value
+        except ValueError:
+            pass
+    return json.dumps(value, sort_keys=True)
 
 
 def format_tag_key_value(key: str, value: Any, max_length: int = 50) -> str:
